@@ -137,9 +137,15 @@ func NewGen(seed uint64, cfg GenCfg) *Gen {
 func (g *Gen) Genesis() Genesis {
 	r := g.R
 	nv := 2 + r.N(5) // 2..6
+	if g.Cfg.Mode == "guard" {
+		nv = 2 + r.N(2) // small sets: the last-validator guard and its neighbours are in play
+	}
 	gen := Genesis{Window: 4, MinSigned: 2, MinSignedDec: "0.5", JailNs: 2_000_000_000, MinCommE18: 0}
 	mv := r.N(3)
 	if g.Cfg.Mode != "wild" && r.P(75) {
+		mv = 2
+	}
+	if g.Cfg.Mode == "guard" {
 		mv = 2
 	}
 	switch mv {
@@ -409,6 +415,9 @@ func (g *Gen) GenTx(s Snap, height int64) Tx {
 	kind := r.W(34, 12, 6, 14, 6, 8, 3, 6, 3, 3, 5)
 	if envelope {
 		kind = r.W(40, 12, 6, 18, 6, 8, 2, 4, 2, 1, 1)
+	}
+	if g.Cfg.Mode == "guard" {
+		kind = r.W(18, 40, 3, 12, 3, 12, 2, 3, 2, 1, 4)
 	}
 	switch kind {
 	case 0: // SETPOWER
